@@ -23,10 +23,10 @@ type monitors struct {
 
 func newMonitors(res *lib.Result) *monitors {
 	return &monitors{
-		equal: res.Monitor("equal-vs-proto.Equal", "cmp.Equal()(x,y) must equal proto.Equal(x',y') where x',y' are x,y with every Change.change_time cleared; also (y,x) and (x,x)"),
-		tol: res.Monitor("tolerance-exact", "cmp.Equal(tolerance comparers)(x,y) must equal: proto.Equal of x,y with the compared kinds blanked AND every corresponding pair of that kind within tolerance by exact math/big arithmetic (only cases where the code's float ops are exact); value comparers must answer ok=false on other kinds"),
-		symrefl: res.Monitor("symmetry-reflexivity", "every comparer: eq(x,y)==eq(y,x); eq(x,x)==true (non-negative tolerances)"),
-		logic: res.Monitor("and-or", "And(es)(x,y) == all e(x,y); Or(es)(x,y) == any e(x,y); ValueAnd/ValueOr: ok == any ok_i, equal == all/any over the ok ones (true/false when none is ok)"),
+		equal:    res.Monitor("equal-vs-proto.Equal", "cmp.Equal()(x,y) must equal proto.Equal(x',y') where x',y' are x,y with every Change.change_time cleared; also (y,x) and (x,x)"),
+		tol:      res.Monitor("tolerance-exact", "cmp.Equal(tolerance comparers)(x,y) must equal: proto.Equal of x,y with the compared kinds blanked AND every corresponding pair of that kind within tolerance by exact math/big arithmetic (only cases where the code's float ops are exact); value comparers must answer ok=false on other kinds"),
+		symrefl:  res.Monitor("symmetry-reflexivity", "every comparer: eq(x,y)==eq(y,x); eq(x,x)==true (non-negative tolerances)"),
+		logic:    res.Monitor("and-or", "And(es)(x,y) == all e(x,y); Or(es)(x,y) == any e(x,y); ValueAnd/ValueOr: ok == any ok_i, equal == all/any over the ok ones (true/false when none is ok)"),
 		delivery: res.Monitor("no-dup-delivery", "through Value.Pull / Collection.Pull with an equivalence E and backpressure: an update is delivered iff it is not E-equivalent to the value the subscriber holds (last delivered, after the read mask; with WithInclude: after include, membership changes always delivered, folded view ids = List(WithInclude) after every write). WITHOUT backpressure (events dropped/merged by the bus before the equivalence check): deliveries are a subsequence of the writes, no delivery is E-equivalent to the one before it, and the subscriber's view converges to the stored state once writes stop"),
 	}
 }
